@@ -76,8 +76,12 @@ impl ProtoFmt for time::Duration {
         let mut seconds = self.whole_seconds();
         let mut nanos = self.subsec_nanoseconds();
         if nanos < 0 {
-            seconds -= 1;
-            nanos += 1_000_000_000;
+            // At the lower end of the range (`i64::MIN` seconds) there is no normalized form;
+            // the value is encoded as is, `read()` accepts negative nanos.
+            if let Some(s) = seconds.checked_sub(1) {
+                seconds = s;
+                nanos += 1_000_000_000;
+            }
         }
         Self::Proto {
             seconds: Some(seconds),
